@@ -1096,8 +1096,10 @@ class C01(Check):
         "ASCII digits for \\d) and compared with the real lexers on strings over the token alphabets and on the real "
         "encoders' texts in every layout; the un-indented layouts `render`/`renderIx` and the indented SimpleMRS "
         "layout `renderInd` are compared with the real encode() text; the indented Indexed MRS layout `renderIxInd n` "
-        "is compared with the real encode()/dumps() text for indent=True and one integer width per case; the indented "
-        "MRX layout is not modelled (the ElementTree of the real text is what is compared)",
+        "is compared with the real encode()/dumps() text for indent=True and one integer width per case, the un-indented "
+        "document layout `renderIxDoc` with the real dumps() text; MRX: the text of encode()/dumps() for indent off, True "
+        "and one integer width is compared with `mrxText` (model of the ElementTree writer on the encoder's trees and of "
+        "the re.sub of mrx._tostring); reading XML text back is a library parameter",
         "list API: dumps/loads of all items of every rt case are compared with the models' document functions "
         "(toksMany/parseMany, toXmlList/ofXmlList, toDictList/fromDictList, toksIx of every item/parseManyIx); "
         "ofXmlList takes the mrs elements in document order (iterparse: end events) - the same on trees without "
@@ -1374,7 +1376,9 @@ class C01(Check):
         lay = {"text": cps(text)} if codec in ("simple", "indexed") else {}
         if codec == "simple":
             lay["textind"] = cps(c.encode(m_from_wire(case["items"][0]), properties=props, lnk=lnk, indent=True))
-        if codec == "indexed":
+        if codec == "mrx":
+            lay["text"] = cps(text)
+        if codec in ("indexed", "mrx"):
             lay["textind"] = cps(c.encode(m_from_wire(case["items"][0]), properties=props, lnk=lnk, indent=True))
             lay["textindn"] = cps(c.encode(m_from_wire(case["items"][0]), properties=props, lnk=lnk,
                                            indent=self.ix_width(case)))
@@ -1416,6 +1420,9 @@ class C01(Check):
             out["dict"] = j_to_wire(json.loads(text))
         else:
             out["xml"] = xml_to_wire(etree.fromstring(text))
+            out["text"] = cps(text)
+            out["textind"] = cps(c.dumps([m_from_wire(j) for j in case["items"]], **o, indent=True))
+            out["textindn"] = cps(c.dumps([m_from_wire(j) for j in case["items"]], **o, indent=self.ix_width(case)))
         try:
             out["dec"] = [m_to_wire(d) for d in c.loads(text)]
         except Exception as e:
@@ -1500,6 +1507,8 @@ class C01(Check):
             req = {"op": case["codec"], "ms": case["items"], "props": case["props"], "lnk": case["lnk"]}
             if case["codec"] == "indexed":
                 req["semi"] = semi_wire(case.get("semi") or IX_PREDS)
+                req["n"] = self.ix_width(case)
+            if case["codec"] == "mrx":
                 req["n"] = self.ix_width(case)
             return req
         if k == "parse":
